@@ -40,6 +40,8 @@ func fcModel(x, w, b *ref.T) *ref.T {
 
 func checkC16(c *core.Ctx) {
 	defer sweepC16(c)
+	defer selfCases(c, false, "fc")
+	defer selfCases(c, true, "fc")
 	defer soakC16(c)
 	defer gridC16(c)
 	if c.Shard == 0 && c.Only == "" {
